@@ -52,8 +52,7 @@ Definition mk_record (start : Z) (ref alt : allele) (sge : option allele) : resu
   do sge_ref <- match sge with
                 | None => Ok None
                 | Some x => let sr := get_vcf_allele x s in
-                            if negb (zlen sr =? zlen r) then Err AssertionError
-                            else Ok (if dna_eqb sr r then None else Some sr)
+                            Ok (if dna_eqb sr r then None else Some sr)
                 end;
   if is_nil r || is_nil a then Err ValueError
   else Ok (mkRec (s + 1) r a sge_ref).
